@@ -474,9 +474,21 @@ func genB(t *tape.Tape) []world.Op {
 }
 
 // tame reports whether every coordinate of prog is moderate (the vec back
-// end is only driven with such programs).
+// end is only driven with such programs). It also widens viewBoxes narrower
+// than 8 units: golang.org/x/image/vector takes tens of seconds to flatten
+// curves that are millions of pixels long, which a 1/64-unit viewBox makes
+// out of moderate coordinates.
 func tame(prog []world.Op) bool {
 	for i := range prog {
+		if prog[i].K == world.KReset {
+			vb := &prog[i].VB
+			if vb.MaxX-vb.MinX < 8 {
+				vb.MaxX = vb.MinX + 8
+			}
+			if vb.MaxY-vb.MinY < 8 {
+				vb.MaxY = vb.MinY + 8
+			}
+		}
 		if !prog[i].K.IsDraw() && prog[i].K != world.KStartPath {
 			continue
 		}
